@@ -45,9 +45,9 @@ func init() {
 		}
 		return out
 	}
-	c13Leaves['I'] = [3][]c13E{lits("i", "0", "1", "2", "3", "5", "7", "10", "12", "100"), paths("n1", "n2", "n0", "ng", "i64", "i32", "u8"), paths("m.x", "m.in.k", "l[0]", "l[2]", "li[1]", "msi.k", "st.Count", "ps.Count")}
+	c13Leaves['I'] = [3][]c13E{lits("i", "0", "1", "2", "3", "5", "7", "10", "12", "100"), paths("n1", "n2", "n0", "ng", "i64", "i32", "u8"), paths("m.x", "m.in.k", "l[0]", "l[2]", "li[1]", "msi.k", "st.Count", "ps.Count", "m['404']", "msi['7']")}
 	c13Leaves['F'] = [3][]c13E{lits("f", "0.5", "2.5", "1.25", "4.0"), paths("f1", "f2", "f32", "fi", "fbig", "fsmall"), paths("m.r")}
-	c13Leaves['S'] = [3][]c13E{lits("s", "k1", "zed", "a b", "Hi"), paths("s1", "s2", "se", "sp"), paths("m.name", "m.in.w", "ls[0]", "ls[1]", "mss.k", "st.Plain", "ps.Plain")}
+	c13Leaves['S'] = [3][]c13E{lits("s", "k1", "zed", "a b", "Hi"), paths("s1", "s2", "se", "sp"), paths("m.name", "m.in.w", "ls[0]", "ls[1]", "mss.k", "st.Plain", "ps.Plain", "mss['200']")}
 	c13Leaves['B'] = [3][]c13E{lits("b", "true", "false"), paths("bt", "bf", "b1", "b2"), paths("m.ok", "m.off", "st.On")}
 
 	add := func(k, op string, out byte, in ...byte) {
